@@ -168,6 +168,102 @@ func run(c *mon.Ctx) {
 			c.Fail("crc:emitted-scte35", "the CRC-32/MPEG-2 of a section emitted by UpdateData is not zero", wit{Input: mon.Hex(sec)})
 		}
 		c.Class(fmt.Sprintf("emitted-scte35/cmd=%d/descs=%d/stuffing=%v/over1023=%v", s.Command(), len(ds), stuff > 0, len(sec) > 1026))
+		// encode again after a change made through a command / descriptor handle that keeps every length
+		first := append([]byte{}, sec...)
+		edits := ""
+		if len(ds) > 0 && r.Bool() {
+			d := ds[r.Intn(len(ds))]
+			switch r.Intn(3) {
+			case 0:
+				d.SetEventID(d.EventID() ^ (1 << uint(r.Intn(32))))
+				edits += "descriptor.SetEventID,"
+			case 1:
+				d.SetSegmentNumber(d.SegmentNumber() + 1)
+				edits += "descriptor.SetSegmentNumber,"
+			default:
+				if u := d.UPID(); len(u) > 0 && d.UPIDType() != 0 {
+					v := append([]byte{}, u...)
+					v[r.Intn(len(v))] ^= 0x5a
+					d.SetUPID(v)
+					edits += "descriptor.SetUPID(same length),"
+				}
+			}
+		}
+		if edits == "" || r.Bool() {
+			switch cmd := s.CommandInfo().(type) {
+			case scte35.SpliceInsertCommand:
+				cmd.SetEventID(cmd.EventID() + 1)
+				edits += "splice_insert.SetEventID,"
+			case scte35.TimeSignalCommand:
+				if s.Command() == scte35.TimeSignal {
+					cmd.SetPTS(cmd.PTS() ^ 0x10)
+					edits += "time_signal.SetPTS,"
+				}
+			}
+		}
+		if edits != "" {
+			sec2 := s.UpdateData()
+			c.Eval(1)
+			c.Count("emitted_scte35.second_encoding_after_handle_edit")
+			if len(sec2) < 4 || ref.CRC32MPEG2(sec2) != 0 {
+				c.Fail("crc:emitted-scte35-second-encoding", "the CRC-32/MPEG-2 of the section emitted by a second UpdateData, after a length-preserving change through "+edits+" is not zero", wit{Input: mon.Hex(sec2)})
+			} else if bytes.Equal(sec2, first) {
+				c.Fail("crc:emitted-scte35-second-encoding-unchanged", "a change made through "+edits+" left the next encoding unchanged", wit{Input: mon.Hex(sec2)})
+			}
+		}
+	})
+	c.Floor("emitted_scte35.second_encoding_after_handle_edit", 500)
+	c.Floor("emitted_pmt.multi_packet", 500)
+	c.Stream("emitted-pmt-multi-packet", c.N(2000, 400000), func(i int, r *gen.Rand) {
+		// reference-built PMTs of up to 1021 bytes, split over several packets, filtered to a subset
+		p := ref.GenPMT(r, 1+r.Intn(50))
+		sec := p.Section()
+		pay := append([]byte{0}, sec...)
+		const pmtPID = 0x30
+		pk, _ := ref.Packetise(pmtPID, r.Intn(16), pay, ref.RandChunks(r, 1+len(pay)/60), r.Bool())
+		var in []*packet.Packet
+		for k := range pk {
+			q := packet.Packet(pk[k])
+			in = append(in, &q)
+		}
+		seen := map[int]bool{}
+		var keep []int
+		for _, st := range p.Streams {
+			if !seen[st.PID] && st.PID != pmtPID && r.Intn(3) == 0 {
+				keep = append(keep, st.PID)
+			}
+			seen[st.PID] = true
+		}
+		if len(keep) == 0 || seen[pmtPID] {
+			return
+		}
+		out, err := psi.FilterPMTPacketsToPids(in, keep)
+		c.Eval(1)
+		if err != nil || len(out) == 0 {
+			c.Fail("crc:emitted-pmt-multi-setup", fmt.Sprintf("filtering a %d-packet PMT to present PIDs failed: %v (%d packets)", len(in), err, len(out)), wit{Input: mon.Hex(pay)})
+			return
+		}
+		var got []byte
+		for _, o := range out {
+			off := 4
+			if o[3]&0x20 != 0 {
+				off += 1 + int(o[4])
+			}
+			if o[3]&0x10 != 0 && off < 188 {
+				got = append(got, o[off:]...)
+			}
+		}
+		c.Count("emitted_pmt.multi_packet")
+		if len(got) < 4 || 1+int(got[0])+3 > len(got) {
+			c.Fail("crc:emitted-pmt-multi", "the filtered packets do not hold a section header", wit{Input: mon.Hex(pay)})
+			return
+		}
+		g := got[1+int(got[0]):]
+		l := 3 + (int(g[1]&0x0f)<<8 | int(g[2]))
+		if l > len(g) || ref.CRC32MPEG2(g[:l]) != 0 {
+			c.Fail("crc:emitted-pmt-multi", fmt.Sprintf("the section emitted by FilterPMTPacketsToPids (input section_length %d, emitted header announces %d, %d payload bytes emitted) does not have a zero CRC-32/MPEG-2 over the bytes its section_length delimits", len(sec)-3, l-3, len(g)), wit{Input: mon.Hex(pay)})
+		}
+		c.Class(fmt.Sprintf("emitted-pmt-multi/in=%d/out=%d", (len(sec)-3)/128, (l-3)/128))
 	})
 	c.Stream("emitted-pmt", c.N(2000, 1000000), func(i int, r *gen.Rand) {
 		// a small reference-built PMT in one packet, filtered to a subset of its streams
